@@ -143,6 +143,25 @@ func WaitUntil(max time.Duration, cond func() bool) bool {
 	}
 }
 
+// Watchdog runs f in its own goroutine and reports whether it ended within max. A run that does not
+// end (every goroutine blocked on a leaked permit) is reported as `stuck` instead of hanging the harness.
+func Watchdog(max time.Duration, f func()) bool {
+	done := make(chan struct{})
+	go func() {
+		defer close(done)
+		f()
+	}()
+	select {
+	case <-done:
+		return true
+	case <-time.After(max):
+		return false
+	}
+}
+
+// StuckAfter is the watchdog limit of one concurrent run.
+const StuckAfter = 20 * time.Second
+
 // PickN picks a capacity (small ones and boundary sizes preferred).
 func PickN(r *verifh.Rng) int {
 	switch r.Intn(6) {
